@@ -475,17 +475,32 @@ def andAll (ctx : Ctx) (preds : List PExpr) (rows : List Row) : Option (List Row
   | [] => some rows
   | _ => filterRows ctx (.nary .and preds) rows
 
-/-- a datasource: the declared fields of every table row (through the unique-name ↦ column mapping), then the
-    pushed-down predicates (the contract of `DatasourceImplementation.Materialize`) -/
+/-- one record of a datasource: the declared fields, read from the table row through the unique-name ↦ column mapping -/
+def tableRow (mapping : List (String × String)) (tr : Row) : List String → Option Row
+  | [] => some []
+  | u :: us =>
+    match mapping.lookup u with
+    | none => none
+    | some col =>
+      match lookupRow col tr, tableRow mapping tr us with
+      | some v, some rest => some ((u, v) :: rest)
+      | _, _ => none
+
+def tableRows (mapping : List (String × String)) (fields : List String) : List Row → Option (List Row)
+  | [] => some []
+  | tr :: trs =>
+    match tableRow mapping tr fields, tableRows mapping fields trs with
+    | some r, some rest => some (r :: rest)
+    | _, _ => none
+
+/-- a datasource: the declared fields of every table row, then the pushed-down predicates (the contract of
+    `DatasourceImplementation.Materialize`) -/
 def dsRows (db : Db) (ctx : Ctx) (fields : List String) (name : String) (preds : List PExpr)
     (mapping : List (String × String)) : Option (List Row) :=
   match db name with
   | none => none
   | some trows =>
-    match trows.mapM (fun tr => fields.mapM fun u =>
-        match mapping.lookup u with
-        | none => none
-        | some col => (lookupRow col tr).map fun v => (u, v)) with
+    match tableRows mapping fields trows with
     | none => none
     | some rows => andAll ctx preds rows
 
